@@ -97,16 +97,21 @@ func bigOf(name string) *big.Int {
 	return new(big.Int).Set(r.Num())
 }
 
-func IntRange(name, lo, hi string) math.Int { return math.NewIntFromBigInt(bigOf(name)) }
+func IntRange(name, lo, hi string) math.Int {
+	if Ideal() {
+		// rational model value: round down to a whole base unit
+		r := val(name)
+		return math.NewIntFromBigInt(new(big.Int).Div(r.Num(), r.Denom()))
+	}
+	return math.NewIntFromBigInt(bigOf(name))
+}
 
 func DecRange(name, lo, hi string) math.LegacyDec {
 	if Ideal() {
 		r := val(name)
 		s := new(big.Rat).Mul(r, new(big.Rat).SetInt(new(big.Int).Exp(big.NewInt(10), big.NewInt(18), nil)))
-		if !s.IsInt() {
-			panic("nd: ideal witness value of " + name + " has more than 18 decimals")
-		}
-		return math.LegacyNewDecFromBigIntWithPrec(new(big.Int).Set(s.Num()), 18)
+		// rational model value: truncate to 18 decimals
+		return math.LegacyNewDecFromBigIntWithPrec(new(big.Int).Div(s.Num(), s.Denom()), 18)
 	}
 	return math.LegacyNewDecFromBigIntWithPrec(bigOf(name), 18)
 }
@@ -238,3 +243,15 @@ func Thorough() bool { return W != nil && W.Thorough }
 // Hint suggests a simplifying regime to the engine's search for a concrete counterexample
 // (never used to discharge anything). No-op natively.
 func Hint(cond bool) {}
+
+// NearDec: equality of two decimals up to tol. In the engine's ideal-Q interpretation it is
+// EXACT equality (the identity must hold for all reals); natively (replay with the real
+// rounding library) it tolerates tol, so that only violations beyond the rounding budget reproduce.
+func NearDec(a, b, tol math.LegacyDec) bool { return a.Sub(b).Abs().LTE(tol) }
+
+// LeqDec: a <= b (ideal: exact; native: up to tol).
+func LeqDec(a, b, tol math.LegacyDec) bool { return a.LTE(b.Add(tol)) }
+
+// Overflow switches the engine's modelling of the fixed-point library's overflow panics
+// (bit length > 256 / 315) on or off for the rest of the path. No-op natively (the real library panics by itself).
+func Overflow(on bool) {}
